@@ -3,12 +3,20 @@
 Correspondence: the REAL sshuttle.client.main (and, for the option layer, the real
 sshuttle.options.parser and sshuttle.cmdline.main) is run up to the hand-over
 (fw.setup + the call of _main) inside a simulated boundary:
-  client.FirewallClient  -> recording stub holding a REAL method object (sshuttle.methods.get_method)
+  client.FirewallClient  -> for the shipped methods and `auto`: the REAL constructor; its Popen is an in-process helper whose
+                            command line runs through the REAL cmdline.main up to firewall.main (recorded) and which then
+                            announces READY <method> (auto: the method the case says the helper picks) on the real socketpair;
+                            synthetic feature sets: a stub holding a synthetic method object
   client._main           -> recording stub returning 0
   client.socket          -> a copy of the socket module whose socket() makes fake sockets; bind()
                             fails with EADDRINUSE exactly on the (protocol, family, port) triples of `env`
   client.getpwnam/getgrnam, client.resolvconf_nameservers -> table stubs
-and the extracted Coq model (coq/Model/Startup.v, startup_gen) on the same case.
+and the extracted Coq model (coq/Model/Startup.v, startup_gen) on the same case; the simulated kernel answers bind()
+with success, EADDRINUSE or a refusal with another errno (address not local, invalid, port not permitted, IPv6 switched
+off), and the same environment is handed to the model.  Implementation-only environment dimensions (expected outcome
+derived from the model's by expected_outcome): no pwd/grp module, a dual-stack kernel (the IPv4 TCP socket cannot
+listen beside the IPv6 one).
+Command lines are also run with the real client.main behind the real cmdline.main: exit status and logged fatal message.
 An oracle that looks only at the implementation's outcome decides the property."""
 import errno
 import io
@@ -21,18 +29,26 @@ RULE = ("configurations x environments: the cross product of method (nat,nft,tpr
         "listen form per family (none/auto/address/address:port; --disable-ipv6 = v6 none) x --dns x resolv.conf families x "
         "--ns-hosts family x --to-ns x include families (none = --auto-nets) x excludes x user/group (absent/existing/unknown), "
         "each with a busy-port environment (free, 12300 busy, 12300..12290 busy, the explicit port busy, everything busy, all but "
-        "9001 busy, random ranges per protocol/family), explicit ports inside and outside 9001..12300; a case is non-trivial when "
+        "9001 busy, random ranges per protocol/family), explicit ports inside and outside 9001..12300 and below 1024; listen addresses and ports the "
+        "kernel refuses (not local, invalid, no privilege, IPv6 off; both families, TCP/UDP/DNS listeners, combined with busy ports); --method auto x the method the helper "
+        "announces; platforms without pwd/grp, kernels without IPv6, dual-stack kernels; the command line of every case also through the real "
+        "cmdline.main (exit status, fatal message, no subnets and no -N); a case is non-trivial when "
         "start-up got past the feature negotiation (plan, port-search failure or internal error); distinct by content hash")
 TRUSTED_BASE = [
-    "modelled, not verified: the kernel's bind(): outcome is a function of (protocol, family, port) only — a static busy set; "
-    "only EADDRINUSE failures; sockets of abandoned listeners count as closed; listen()/setsockopt() never fail",
-    "stubs of harness/props/c15.py standing for FirewallClient (real method object inside), _main, getpwnam/getgrnam, resolvconf_nameservers",
+    "modelled, not verified: the kernel's bind(): outcome is a static function of (protocol, family, address, port): success, EADDRINUSE (a busy set over "
+    "protocol/family/port) or a refusal with another errno (EADDRNOTAVAIL / EINVAL per address, EACCES for ports below 1024 on an unprivileged kernel, "
+    "EADDRNOTAVAIL for every IPv6 address when IPv6 is switched off), the refusal taking precedence; sockets of abandoned listeners count as closed; "
+    "setsockopt() never fails, listen() only in the dual-stack dimension",
+    "stubs of harness/props/c15.py standing for the helper process (in-process: real cmdline.main dispatch, firewall.main recorded, READY line on the real socketpair), "
+    "_main, getpwnam/getgrnam (or their absence), resolvconf_nameservers; FirewallClient itself is real except for synthetic feature sets",
+    "modelled, not verified (implementation-only dimensions): bind() of any IPv6 address failing with EADDRNOTAVAIL when IPv6 is switched off; on a dual-stack kernel "
+    "listen() of the IPv4 TCP socket failing with EADDRINUSE when an IPv6 TCP socket listens on the same port, that socket then receiving the IPv4 connections",
     "docs/manpage.rst `--method <...>` line is read by the harness and compared with Model/Startup.v documented_methods on every run",
 ]
 ASSUMPTIONS = [
     "explicit listen ports are <= 65535 (options.parse_ipport goes through getaddrinfo, which rejects larger ones)",
     "the method offers IPv4 (client.main asserts avail.ipv4; true of every shipped method)",
-    "not daemonised (check_daemon/pidfile not modelled); getpwnam/getgrnam exist (POSIX)",
+    "not daemonised (check_daemon/pidfile not modelled)",
 ]
 
 FEATKEYS = ["loopback_proxy_port", "ipv4", "ipv6", "udp", "dns", "user", "group"]
@@ -74,15 +90,43 @@ def case_line(case, feats, mask):
         lst(case["includes"], lambda s: "%d,%s,%d,%d,%d" % (s[0], hx(s[1]), s[2], s[3], s[4])),
         lst(case["excludes"], lambda s: "%d,%s,%d,%d,%d" % (s[0], hx(s[1]), s[2], s[3], s[4])),
         "1" if case["auto_nets"] else "0", id_tok(case["user"]), id_tok(case["group"]),
-        lst(case["env"], lambda r: "%s%d:%d:%d" % (r[0], r[1], r[2], r[3])),
+        lst([("b", r) for r in case["env"]] + [("r", r) for r in refusals_of(case)],
+            lambda x: "%s%d:%d:%d" % (x[1][0], x[1][1], x[1][2], x[1][3]) if x[0] == "b" else
+            "r%s%d:%d:%s:%d:%d" % (x[1][0], x[1][1], x[1][2], "*" if x[1][3] is None else hx(x[1][3]), x[1][4], x[1][5])),
     ])
+
+
+EADDRNOTAVAIL, EACCES, EINVAL = errno.EADDRNOTAVAIL, errno.EACCES, errno.EINVAL
+
+
+def refusals_of(case):
+    """bind() refusals of the case's kernel, first match decides: [proto 't'/'u', family 4/6, errno, address or None = every
+    address, lo, hi].  `refuse` entries are explicit; the kernel flag no_v6 (IPv6 switched off: no IPv6 address can be
+    bound) and unpriv (no privilege to bind ports below 1024) expand to entries"""
+    out = [list(r) for r in case.get("refuse", [])]
+    k = case.get("kernel") or {}
+    if k.get("unpriv"):
+        out += [[p, f, EACCES, None, 1, 1023] for p in "tu" for f in (4, 6)]
+    if k.get("no_v6"):
+        out += [[p, 6, EADDRNOTAVAIL, None, 0, 65535] for p in "tu"]
+    return out
 
 
 # --------------------------------------------------------------------------- implementation side
 class World:
-    def __init__(self, env):
+    def __init__(self, env, kernel=None, refuse=None):
         self.env = env
         self.binds = []
+        k = kernel or {}
+        self.refuse = refuse or []                   # bind() answered with an errno other than EADDRINUSE
+        self.dualstack = bool(k.get("dualstack"))    # an IPv6 TCP listener also owns the IPv4 side of its port
+        self.listening6 = set()
+
+    def refused(self, proto, fam, ip, port):
+        for (p, f, en, rip, lo, hi) in self.refuse:
+            if p == proto and f == fam and lo <= port <= hi and (rip is None or rip == ip):
+                return en
+        return None
 
     def busy(self, proto, fam, port):
         for (p, f, lo, hi) in self.env:
@@ -112,12 +156,20 @@ def make_socket_module(world):
             pr = "t" if self.type == real.SOCK_STREAM else "u"
             fam = 6 if self.family == real.AF_INET6 else 4
             world.binds.append((pr, fam, ip, port))
+            en = world.refused(pr, fam, ip, port)
+            if en is not None:
+                raise OSError(en, os.strerror(en))
             if world.busy(pr, fam, port):
                 raise OSError(errno.EADDRINUSE, "Address already in use")
             self.addr = (ip, port)
 
         def listen(self, n):
-            pass
+            if self.type != real.SOCK_STREAM or self.addr is None:
+                return
+            if self.family == real.AF_INET6:
+                world.listening6.add(self.addr[1])
+            elif world.dualstack and self.addr[1] in world.listening6:
+                raise OSError(errno.EADDRINUSE, "Address already in use")
 
         def setsockopt(self, *a):
             pass
@@ -171,12 +223,18 @@ FATAL_CLASSES = [
     ("User ", "user_missing"),
     ("Group ", "group_missing"),
     ("Can't redirect DNS traffic since IPv6 is not", "dns_all_v6"),
+    ("Could not bind the redirector listeners to", "bind_refused"),
+    ("Could not bind the DNS listener to", "dns_bind_refused"),
     ("Could not bind the redirector listeners", "ports_busy"),
     ("Could not bind the DNS listener", "dns_ports_busy"),
     ("IPv6 subnets defined but not listening", "v6_subnets_no_listen"),
     ("IPv6 ns servers defined but not listening", "v6_ns_no_listen"),
     ("IPv4 subnets defined but not listening", "v4_subnets_no_listen"),
     ("IPv4 ns servers defined but not listening", "v4_ns_no_listen"),
+    ("Could not bind to an IPv6 socket", "v6_unavailable"),
+    ("Routing by user not available", "user_unavailable"),
+    ("Routing by group not available", "group_unavailable"),
+    ("All attempts to run firewall client", "no_helper"),
 ]
 
 
@@ -226,12 +284,49 @@ def plan_string(rec):
                tons_s, 1 if m["auto_nets"] else 0, lis(m["tcp"]), lis(m["udp"]), lis(m["dns"])))
 
 
-def impl_run(case):
-    """run the real client.main on `case`; returns the canonical outcome string"""
+def run_helper_cmdline(args):
+    """the helper's side of `sshuttle ... --method X --firewall`, in-process: the REAL cmdline.main parses the words and
+    dispatches to firewall.main, which is replaced by a recorder.  -> (method, syslog) or None (usage error)"""
+    import sshuttle.cmdline as cmdline
+    import sshuttle.helpers as helpers
+    got = {}
+
+    def fw_main(method_name, syslog):
+        got["m"] = (method_name, syslog)
+        return 0
+    saved = (cmdline.firewall.main, sys.argv, helpers.verbose, os.environ.pop("SSHUTTLE_ARGS", None), sys.stdout, sys.stderr)
+    cmdline.firewall.main = fw_main
+    sys.argv = ["sshuttle"] + list(args)
+    sys.stdout = sys.stderr = io.StringIO()
+    try:
+        try:
+            cmdline.main()
+        except SystemExit:
+            pass
+    finally:
+        cmdline.firewall.main, sys.argv, helpers.verbose = saved[:3]
+        if saved[3] is not None:
+            os.environ["SSHUTTLE_ARGS"] = saved[3]
+        sys.stdout, sys.stderr = saved[4], saved[5]
+    return got.get("m")
+
+
+def impl_run(case, via_cmdline=None, info=None):
+    """run the real client.main on `case`; returns the canonical outcome string.
+    For the shipped methods (and `auto`) the REAL FirewallClient constructor runs: its Popen is replaced by an in-process
+    helper whose command line goes through the real cmdline.main up to firewall.main (recorded) and which then announces
+    `READY <method>` (for auto: the method the case says the helper picks); synthetic feature sets keep a stub constructor.
+    via_cmdline = argv: the real cmdline.main is run on that command line inside the same boundary instead of calling
+    client.main directly; the outcome is then 'EXIT <status> <class of the logged fatal message | ->'.
+    info (dict) receives what the helper was started with."""
+    import subprocess
+    import types
     import sshuttle.client as client
     import sshuttle.helpers as helpers
-    world = World(case["env"])
+    world = World(case["env"], case.get("kernel"), refusals_of(case))
     rec = {}
+    ends = []
+    RealFW = client.FirewallClient
 
     class StubFW:
         def __init__(self, method_name, sudo_pythonpath):
@@ -244,6 +339,34 @@ def impl_run(case):
 
         def done(self):
             pass
+
+    class RealInitFW(RealFW):                       # the real constructor (READY dialogue, method from the helper's answer)
+        def setup(self, *a):
+            rec["setup"] = a
+            RealFW.setup(self, *a)
+
+    class HelperProc:
+        pid = 4343
+        returncode = None
+
+        def poll(self):
+            return None
+
+        def wait(self):
+            return 0
+
+    def popen(argv, stdout=None, stdin=None, env=None, preexec_fn=None, **kw):
+        rec.setdefault("helper_argv", []).append(list(argv))
+        m = run_helper_cmdline(argv[1:])
+        rec["helper_started_for"] = m
+        end = stdout.dup()
+        ends.append(end)
+        if m is None:
+            end.shutdown(2)                         # usage error on the helper's side: it exits without a word
+        else:
+            name = case.get("auto_resolves", "nat") if m[0] == "auto" else m[0]
+            end.sendall(b"READY %s\n" % name.encode())
+        return HelperProc()
 
     def stub_main(tcp_listener, udp_listener, fw, ssh_cmd, remotename, python, latency_control,
                   latency_buffer_size, dns_listener, seed_hosts, auto_hosts, auto_nets, daemon,
@@ -265,19 +388,25 @@ def impl_run(case):
 
     def tup(s):
         return (AF[s[0]], s[1], s[2], s[3], s[4])
-    saved = {k: getattr(client, k) for k in ("FirewallClient", "_main", "socket", "getpwnam", "getgrnam",
-                                             "resolvconf_nameservers", "debug1", "debug2", "debug3", "log")}
-    saved_prefix = helpers.logprefix
-    so = sys.stdout
+    saved = {k: getattr(client, k) for k in ("FirewallClient", "_main", "socket", "getpwnam", "getgrnam", "ssubprocess",
+                                             "is_admin_user", "resolvconf_nameservers", "debug1", "debug2", "debug3", "log")}
+    saved_prefix, saved_verbose, saved_argv0 = helpers.logprefix, helpers.verbose, sys.argv[0]
+    so, se = sys.stdout, sys.stderr
     try:
-        client.FirewallClient = StubFW
+        client.FirewallClient = StubFW if case["method"].startswith("synth:") else RealInitFW
+        client.ssubprocess = types.SimpleNamespace(Popen=popen, PIPE=subprocess.PIPE)
+        client.is_admin_user = lambda: True
+        sys.argv[0] = "sshuttle"
         client._main = stub_main
         client.socket = make_socket_module(world)
-        client.getpwnam = lookup(case["user"])
-        client.getgrnam = lookup(case["group"])
+        nopwd = case.get("nopwd")                   # a platform without the pwd / grp modules
+        client.getpwnam = None if nopwd else lookup(case["user"])
+        client.getgrnam = None if nopwd else lookup(case["group"])
         client.resolvconf_nameservers = lambda systemd_resolved: [(AF[n[0]], n[1]) for n in case["resolv"]]
         client.debug1 = client.debug2 = client.debug3 = client.log = lambda s: None
         sys.stdout = io.StringIO()
+        if via_cmdline is not None:
+            return cmdline_outcome(via_cmdline)
         l6 = case["l6"] if case["l6"] in (None, "auto") else tuple(case["l6"])
         l4 = case["l4"] if case["l4"] in (None, "auto") else tuple(case["l4"])
         to_ns = None if case["to_ns"] is None else (AF[case["to_ns"][0]], case["to_ns"][1], case["to_ns"][2])
@@ -300,10 +429,63 @@ def impl_run(case):
             return "RETURNED %r" % (rv,)
         return "PLAN " + plan_string(rec)
     finally:
-        sys.stdout = so
+        sys.stdout, sys.stderr = so, se
         for k, v in saved.items():
             setattr(client, k, v)
-        helpers.logprefix = saved_prefix
+        helpers.logprefix, helpers.verbose, sys.argv[0] = saved_prefix, saved_verbose, saved_argv0
+        for e_ in ends:
+            e_.close()
+        if info is not None:
+            info["helper_started_for"] = rec.get("helper_started_for")
+            info["helper_argv"] = rec.get("helper_argv")
+
+
+def cmdline_outcome(argv):
+    """the real cmdline.main on argv (inside impl_run's boundary: the real client.main runs up to the stubbed _main):
+    'EXIT <status> <class of the message logged as fatal | ->' | 'USAGE <status>' | 'TRACEBACK <exception class>'"""
+    import sshuttle.cmdline as cmdline
+    logged = []
+    saved = (sys.argv, cmdline.log, os.environ.pop("SSHUTTLE_ARGS", None))
+    cmdline.log = logged.append
+    sys.argv = ["sshuttle"] + list(argv)
+    sys.stderr = io.StringIO()
+    try:
+        try:
+            rv = cmdline.main()
+        except SystemExit as e:
+            return "USAGE %s" % e.code
+        except BaseException as e:      # noqa: B902 — whatever escapes cmdline.main is a traceback for the user
+            return "TRACEBACK " + type(e).__name__
+        fatal = [m for m in logged if m.startswith("fatal: ")]
+        return "EXIT %r %s" % (rv, classify_fatal(fatal[0][7:]) if fatal else "-")
+    finally:
+        sys.argv, cmdline.log = saved[:2]
+        if saved[2] is not None:
+            os.environ["SSHUTTLE_ARGS"] = saved[2]
+
+
+def expected_outcome(case, feats, mo):
+    """the model's outcome, adjusted for the implementation-only environment dimensions (no pwd/grp module, a dual-stack
+    kernel): which explanatory stop / which listeners the same start-up has there.  (bind() refusals — address not
+    local, privileged port, invalid address, IPv6 switched off — are part of the model's environment.)"""
+    mo = strip_model(mo)
+    # (a method without IPv4 trips `assert avail.ipv4` before any of this: outside the property, model says CRASH)
+    early = mo.startswith("FATAL no_remote") or mo.startswith("FATAL ipv6_unsupported") or mo.startswith("CRASH")
+    if early:
+        return mo
+    if case.get("nopwd"):
+        if case["user"] is not None:
+            return "FATAL user_unavailable"
+        if case["group"] is not None:
+            return "FATAL group_unavailable"
+    k = case.get("kernel") or {}
+    if k.get("dualstack") and mo.startswith("PLAN "):
+        # the IPv4 TCP socket cannot listen beside the IPv6 one: it is dropped, the IPv6 listener serves both
+        m_ = re.search(r" tcp=(\S+)/(\S+)", mo)
+        a6, a4 = m_.groups()
+        if a6 != "-" and a4 != "-" and a6.split(",")[1] == a4.split(",")[1]:
+            return mo[:m_.start()] + " tcp=%s/-" % a6 + mo[m_.end():]
+    return mo
 
 
 # --------------------------------------------------------------------------- the property oracle (implementation side only)
@@ -348,7 +530,8 @@ def oracle(case, feats, out):
     if kind != "PLAN":
         return ["start-up ended without handing over a plan: " + out[:60]]
     p = parse_plan(out)
-    world = World(case["env"])
+    world = World(case["env"], None, refusals_of(case))
+    dual = bool((case.get("kernel") or {}).get("dualstack"))
     bad = []
     rp = {6: p["ports"][0], 4: p["ports"][1]}
     dp = {6: p["ports"][2], 4: p["ports"][3]}
@@ -370,27 +553,33 @@ def oracle(case, feats, out):
         # every family with subnets / name servers has a bound listener on the reported port
         has_sub = any(s[0] == fam for s in p["inc"])
         has_ns = any(n[0] == fam for n in p["ns"])
-        if has_sub:
+        # on a dual-stack kernel the IPv6 TCP listener on the same port also receives the IPv4 connections
+        served_by_v6 = dual and fam == 4 and p["tcp"][4] is None and p["tcp"][6] is not None and p["tcp"][6][1] == rp[4] != 0
+        if has_sub and not served_by_v6:
             a = p["tcp"][fam]
-            if rp[fam] == 0 or a is None or a[1] != rp[fam] or world.busy("t", fam, a[1]):
+            if rp[fam] == 0 or a is None or a[1] != rp[fam] or world.busy("t", fam, a[1]) or world.refused("t", fam, a[0], a[1]):
                 bad.append("a family with subnets has no TCP listener bound to the reported port")
             if p["udp"]:
                 a = p["udpl"][fam]
-                if a is None or a[1] != rp[fam] or world.busy("u", fam, a[1]):
+                if a is None or a[1] != rp[fam] or world.busy("u", fam, a[1]) or world.refused("u", fam, a[0], a[1]):
                     bad.append("a family with subnets has no UDP listener bound to the reported port")
         if has_ns:
             a = p["dnsl"][fam]
-            if dp[fam] == 0 or a is None or a[1] != dp[fam] or world.busy("u", fam, a[1]):
+            if dp[fam] == 0 or a is None or a[1] != dp[fam] or world.busy("u", fam, a[1]) or world.refused("u", fam, a[0], a[1]):
                 bad.append("a family with name servers has no DNS listener bound to the reported port")
         # reported ports are those of the listeners, in range
         for port, L in ((rp[fam], "tcp"), (dp[fam], "dnsl")):
             a = p[L][fam]
+            if L == "tcp" and served_by_v6:
+                continue
             if (a is None) != (port == 0) or (a is not None and a[1] != port) or not 0 <= port <= 65535:
                 bad.append("a reported port is not the port of the bound listener / out of range")
         # the DNS listener does not share the TCP listener's port
         if dp[fam] != 0 and dp[fam] == rp[fam]:
             bad.append("the DNS listener shares the TCP listener's port")
     # IPv6 entries exactly when IPv6 is active
+    if dual and not any(p[L][4] is not None for L in ("tcp", "udpl", "dnsl")) and p["tcp"][6] is None and rp[4]:
+        bad.append("a family with subnets has no TCP listener bound to the reported port")
     has6 = (any(s[0] == 6 for s in p["inc"] + p["exc"]) or any(n[0] == 6 for n in p["ns"]) or rp[6] != 0 or dp[6] != 0
             or any(p[L][6] is not None for L in ("tcp", "udpl", "dnsl")))
     if has6 != bool(v6_active(case, feats)):
@@ -411,7 +600,7 @@ def oracle(case, feats, out):
 def base_case(**kw):
     c = {"method": "nat", "remote": True, "l6": "auto", "l4": "auto", "dns": False, "resolv": [], "ns_hosts": [],
          "to_ns": None, "includes": [[4, "10.0.0.0", 8, 0, 0]], "excludes": [], "auto_nets": False,
-         "user": None, "group": None, "env": []}
+         "user": None, "group": None, "env": [], "refuse": []}
     c.update(kw)
     return c
 
@@ -426,19 +615,23 @@ WITNESSES = [
     (4, "F21", base_case(l6=None, l4=["127.0.0.1", 5000], env=[["t", 4, 5000, 5000]])),
     (4, "F21", base_case(l6=None, ns_hosts=[[4, "10.9.9.9"]], env=ALLBUSY_T4)),
     (4, "F21", base_case(l6=None, ns_hosts=[[4, "10.9.9.9"]], env=[["u", 4, 9001, 12300]])),
+    # --listen 10.99.99.99:0, not an address of this machine / --listen 127.0.0.1:80 without privilege / the DNS listener
+    (5, "F131", base_case(l6=None, l4=["10.99.99.99", 0], refuse=[["t", 4, 99, "10.99.99.99", 0, 65535]])),
+    (5, "F131", base_case(l6=None, l4=["127.0.0.1", 80], kernel={"unpriv": True})),
+    (5, "F131", base_case(l6=None, l4=["10.99.99.99", 0], ns_hosts=[[4, "10.9.9.9"]], refuse=[["u", 4, 99, "10.99.99.99", 0, 65535]])),
 ]
-FIX_IDS = ["F1", "F2", "F14", "F15", "F21"]
+FIX_IDS = ["F1", "F2", "F14", "F15", "F21", "F131"]
 
 
 def detect_fixes(ctx):
     """which of the pending repairs the code under test already contains: for each witness compare the real outcome
     with the model with and without that repair"""
-    mask = ["1"] * 5
+    mask = ["1"] * len(FIX_IDS)
     lines, meta = [], []
     for idx, fid, case in WITNESSES:
         feats = method_features(case["method"])
         for bit in "10":
-            m = ["1"] * 5
+            m = ["1"] * len(FIX_IDS)
             m[idx] = bit
             lines.append(case_line(case, feats, "".join(m)))
         meta.append((idx, fid, case, feats))
@@ -596,13 +789,34 @@ def run_cmdline(argv):
             os.environ["SSHUTTLE_ARGS"] = saved[3]
 
 
-def check_cmdline(ctx, case, accepted):
+def check_cmdline(ctx, case, accepted, impl=None):
     """the command line of `case` must reach client.main with exactly the arguments the case stands for"""
     argv, dis, listen_items = argv_of_case(case)
     if argv is None or case["method"].startswith("synth:") or not case["remote"]:
         return
     if not case["includes"] and not case["auto_nets"]:
+        # neither a subnet nor -N: an explanatory usage error
+        got = impl_run(case, via_cmdline=argv)
+        ctx.count("cmdline_no_subnets_" + got.split(" ")[0])
+        if got != "USAGE 2" and accepted.get(case["method"], True):
+            ctx.violation("a command line with neither subnets nor -N does not end in a usage error",
+                          {"case": case, "argv": argv, "outcome": got, "clause": "cmdline"})
         return
+    if impl is not None:
+        # the same command line with the real client.main behind it: a fatal stop must reach the user as the logged
+        # message `fatal: ...` and exit status 99, a handed-over plan as status 0
+        got = impl_run(case, via_cmdline=argv)
+        want = "EXIT 99 " + impl.split(" ")[1] if impl.startswith("FATAL ") else "EXIT 0 -" if impl.startswith("PLAN ") else None
+        ctx.count("cmdline_exit_" + "_".join(got.split(" ")[:2]))
+        g = got.split(" ")
+        # property: the stop is an explanatory message (the same one), not a traceback, and not reported as success
+        ok = want is None or got == want or (impl.startswith("FATAL ") and g[0] == "EXIT" and g[1] not in ("0", "None") and g[2] == impl.split(" ")[1])
+        if not ok and accepted.get(case["method"], True):
+            ctx.violation("a fatal stop of start-up does not reach the user as its explanatory message with a failure status "
+                          "(or a handed-over plan as status 0) when started from the command line",
+                          {"case": case, "argv": argv, "outcome": got, "expected": want, "clause": "cmdline"})
+        elif want is not None and got != want:
+            ctx.disagree("exit status of cmdline.main", argv, got, want, True)
     got = run_cmdline(argv)
     ctx.count("cmdline_cases")
     ctx.case(("cmdline", tuple(argv)), nontrivial=False)
@@ -676,6 +890,21 @@ def env_menu(rng, case):
     return menu
 
 
+def random_refusals(rng, case, p=0.5):
+    """bind() refusals for the case's explicit listen addresses / ports: the address is not one of the machine's
+    (EADDRNOTAVAIL), is invalid for bind (EINVAL: e.g. a link-local address without its scope), or — via the kernel
+    flag `unpriv` — the port is below 1024 and the process has no privilege (EACCES); for both protocols, sometimes one"""
+    out = []
+    for key, fam in (("l4", 4), ("l6", 6)):
+        l = case[key]
+        if isinstance(l, list) and rng.random() < p:
+            en = rng.choice([EADDRNOTAVAIL, EADDRNOTAVAIL, EADDRNOTAVAIL, EINVAL, EACCES])
+            protos = rng.choice(["tu", "tu", "tu", "u", "t"])
+            lo, hi = rng.choice([(0, 65535), (0, 65535), (0, 65535), (12290, 12299), (l[1], l[1])])
+            out += [[pr, fam, en, l[0], lo, hi] for pr in protos]
+    return out
+
+
 def random_env(rng, case):
     r = rng.random()
     if r < 0.08:
@@ -722,7 +951,7 @@ def random_case(rng):
         if isinstance(l, list):
             l = list(l)
             if rng.random() < 0.5:
-                l[1] = rng.choice([0, 12300, 12299, 12298, 9001, 9000, 12301, 80, 65535, rng.randint(9001, 12300)])
+                l[1] = rng.choice([0, 12300, 12299, 12298, 9001, 9000, 12301, 80, 53, 443, 1023, 1024, 65535, rng.randint(9001, 12300)])
             if rng.random() < 0.15:
                 l[0] = rng.choice([s[1] for s in (V4NETS if fam == 4 else V6NETS)])
         return l
@@ -750,12 +979,30 @@ def random_case(rng):
             "user": rng.choice([None, None, None, None, None, ["E", 1000], ["E", 0], "M"]),
             "group": rng.choice([None, None, None, None, None, ["E", 2000], "M"]), "env": []}
     case["env"] = random_env(rng, case)
+    if not method.startswith("synth:") and rng.random() < 0.12:
+        case["method"], case["auto_resolves"] = "auto", method           # the helper picks; the client learns it from READY
+    r = rng.random()
+    explicit = [l for l in (l4c, l6c) if isinstance(l, list)]
+    if explicit and rng.random() < 0.35:
+        case["refuse"] = random_refusals(rng, case)
+        if rng.random() < 0.5:
+            case["kernel"] = {"unpriv": True}
+    elif explicit and any(0 < l[1] < 1024 for l in explicit):
+        case["kernel"] = {"unpriv": True}
+    elif r < 0.06:
+        case["kernel"] = {"no_v6": True}
+    elif r < 0.14:
+        case["kernel"] = {"dualstack": True}
+    elif r < 0.2 and (case["user"] is not None or case["group"] is not None or rng.random() < 0.2):
+        case["nopwd"] = True
     return case
 
 
 # --------------------------------------------------------------------------- the run
 def describe(case):
-    return {k: case[k] for k in ("method", "l6", "l4", "dns", "resolv", "ns_hosts", "includes", "user", "group", "env")}
+    d = {k: case[k] for k in ("method", "l6", "l4", "dns", "resolv", "ns_hosts", "includes", "user", "group", "env")}
+    d.update((k, case[k]) for k in ("refuse", "kernel", "nopwd") if case.get(k))
+    return d
 
 
 def correspondence(ctx):
@@ -765,7 +1012,7 @@ def correspondence(ctx):
     accepted = {m: parser_accepts(m) for m in METHODS}
     mask = detect_fixes(ctx)
     ctx.extra["repairs_present_in_code_under_test"] = {f: mask[i] == "1" for i, f in enumerate(FIX_IDS)}
-    ctx.notes.append("fix mask detected on the code under test (F1 F2 F14 F15 F21): " + mask)
+    ctx.notes.append("fix mask detected on the code under test (%s): %s" % (" ".join(FIX_IDS), mask))
 
     cases = []
     for _idx, fid, c in WITNESSES:
@@ -779,26 +1026,42 @@ def correspondence(ctx):
     for c in cp:
         menu = env_menu(rng, c)
         c["env"] = rng.choice(menu)
+        if rng.random() < 0.1:
+            c["refuse"] = random_refusals(rng, c, 0.7)
         cases.append(("cross", c))
     for _ in range(1500 if quick else 20000):
         cases.append(("random", random_case(rng)))
 
     feats_cache = {}
     lines = []
+    def eff_method(c):
+        return c.get("auto_resolves", "nat") if c["method"] == "auto" else c["method"]
     for _k, c in cases:
-        if c["method"] not in feats_cache:
-            feats_cache[c["method"]] = method_features(c["method"])
-        lines.append(case_line(c, feats_cache[c["method"]], mask))
+        if eff_method(c) not in feats_cache:
+            feats_cache[eff_method(c)] = method_features(eff_method(c))
+        lines.append(case_line(c, feats_cache[eff_method(c)], mask))
     model = ctx.run_driver(lines)
     ncmd = 0
     for (kind, c), line, mo in zip(cases, lines, model):
-        feats = feats_cache[c["method"]]
-        impl = impl_run(c)
+        feats = feats_cache[eff_method(c)]
+        info = {}
+        impl = impl_run(c, info=info)
+        mo = expected_outcome(c, feats, mo) + (re.search(r" v6active=\d hasv6=\d$", mo).group(0) if mo.startswith("PLAN") else "")
+        for flag in ("nopwd",) + tuple((c.get("kernel") or {}).keys()) + (("auto",) if c["method"] == "auto" else ()):
+            if c.get(flag) or flag in (c.get("kernel") or {}) or flag == "auto":
+                ctx.count("env_" + flag)
+        if not c["method"].startswith("synth:") and info.get("helper_argv"):
+            # the helper was started: for the method named on the command line, as a firewall helper
+            hs = info.get("helper_started_for")
+            ctx.count("helper_started_through_real_cmdline")
+            if hs is None or hs[0] != c["method"]:
+                ctx.violation("the helper is not started for the method named on the command line",
+                              {"case": c, "helper_argv": info["helper_argv"][-1], "helper_dispatched_to": hs, "clause": "helper method"})
         cls = impl.split(" ")[0] + ("" if impl.startswith("PLAN") else " " + impl.split(" ")[1])
         ctx.count("outcome_" + cls.replace(" ", "_"))
         ctx.count("kind_" + kind)
         ctx.count("method_" + c["method"].split(":")[0])
-        nontrivial = impl.split(" ")[0] in ("PLAN", "CRASH", "OSERR") or "busy" in impl or "no_listen" in impl
+        nontrivial = impl.split(" ")[0] in ("PLAN", "CRASH", "OSERR") or any(x in impl for x in ("busy", "no_listen", "refused", "v6_unavailable"))
         ctx.case(("case", line), nontrivial=nontrivial,
                  sample={"kind": kind, "case": describe(c), "outcome": impl[:300]} if kind == "random" and impl.startswith("PLAN") else None)
         bad = oracle(c, feats, impl)
@@ -810,13 +1073,36 @@ def correspondence(ctx):
             if (m.group(1) == "1") != bool(v6_active(c, feats)):
                 ctx.disagree("ipv6_active", line, bool(v6_active(c, feats)), m.group(1), None)
         for b in bad:
-            ctx.violation(b, {"case": c, "outcome": impl[:400], "clause": b})
+            rp_ = {"case": c, "outcome": impl[:400], "clause": b}
+            if impl.startswith("OSERR ") and impl != "OSERR %d" % errno.EADDRINUSE and refusals_of(c):
+                # finding F131: a bind() refused by the kernel (not EADDRINUSE) is re-raised raw by the two bind loops
+                rp_["finding_id"] = "F131"
+                argv_, _d, _l = argv_of_case(c)
+                if argv_ is not None and not c["method"].startswith("synth:") and c["remote"] and (c["includes"] or c["auto_nets"]):
+                    rp_["command_line"] = "sshuttle " + " ".join(argv_)
+                    rp_["argv"] = argv_
+                    rp_["command_line_outcome"] = impl_run(c, via_cmdline=argv_)
+                    if rp_["command_line_outcome"].startswith("TRACEBACK"):
+                        ctx.violation("the command line ends in a traceback of the socket layer instead of an explanatory fatal message "
+                                      "(a listen address / port the kernel refuses)", dict(rp_, clause="cmdline traceback"))
+                ctx.count("F131_raw_oserror_%s" % impl.split(" ")[1])
+            ctx.violation(b, rp_)
+        plain = not c.get("nopwd") and not c.get("kernel")
         if kind == "cross" and (not quick or ncmd < 300) and c["env"] == []:
             ncmd += 1
-            check_cmdline(ctx, c, accepted)
+            check_cmdline(ctx, c, accepted, impl if ncmd % 3 == 0 else None)
         elif kind == "random" and ncmd < (600 if quick else 6000) and rng.random() < 0.3:
             ncmd += 1
-            check_cmdline(ctx, c, accepted)
+            check_cmdline(ctx, c, accepted, impl if plain or ncmd % 2 else None)
+    # neither subnets nor -N
+    for _ in range(12 if quick else 200):
+        c = random_case(rng)
+        if c["method"].startswith("synth:") or not c["remote"]:
+            continue
+        c["includes"], c["auto_nets"] = [], False
+        c.pop("kernel", None)
+        c.pop("nopwd", None)
+        check_cmdline(ctx, c, accepted)
     flush_listen_batch(ctx)
     ctx.programs = ctx.evaluations
 
@@ -824,13 +1110,28 @@ def correspondence(ctx):
 def replay(ctx, rp):
     """re-run a stored failing input against the real code; True if it still fails"""
     r = rp.get("replay", {})
-    if "argv" in r:
+    if "argv" in r and "method" in r:
         acc = parser_accepts(r["method"])
         print("option parser accepts --method %s: %s" % (r["method"], acc))
         return not acc
+    if "case" in r and r.get("clause") == "cmdline":
+        got = impl_run(r["case"], via_cmdline=r["argv"])
+        print("sshuttle %s -> %s ; expected %s" % (" ".join(r["argv"]), got, r.get("expected", "USAGE 2")))
+        want = r.get("expected", "USAGE 2")
+        g, w_ = got.split(" "), want.split(" ")
+        return not (got == want or (w_[:2] == ["EXIT", "99"] and g[0] == "EXIT" and g[1] not in ("0", "None") and g[2] == w_[2]))
+    if "case" in r and r.get("clause") == "cmdline traceback":
+        got = impl_run(r["case"], via_cmdline=r["argv"])
+        print("%s -> %s" % (r["command_line"], got))
+        return got.startswith("TRACEBACK")
+    if "case" in r and r.get("clause") == "helper method":
+        info = {}
+        impl_run(r["case"], info=info)
+        print("helper started as %r -> firewall.main%r" % ((info.get("helper_argv") or [None])[-1], info.get("helper_started_for")))
+        return info.get("helper_started_for") is None or info["helper_started_for"][0] != r["case"]["method"]
     if "case" in r:
         c = r["case"]
-        feats = method_features(c["method"])
+        feats = method_features(c.get("auto_resolves", "nat") if c["method"] == "auto" else c["method"])
         impl = impl_run(c)
         bad = oracle(c, feats, impl)
         print("outcome:", impl[:400])
